@@ -153,9 +153,13 @@ def install_toposort(rng=None, contract_every=1):
     state = {"rng": rng, "every": contract_every, "n": 0}
     _installed["toposort_state"] = state
 
-    def toposort(graph, start=None):
+    def toposort(graph, start=None, *args, **kwargs):
         COUNTS["toposort_calls"] += 1
         st = _installed["toposort_state"]
+        if args or kwargs:
+            # a signature this wrapper does not know (the code under test changed it): pass through
+            # unchanged; the post-condition below is only defined for toposort(graph, start)
+            return real(graph, start, *args, **kwargs)
         if start is not None:
             start = list(start)
             if st["rng"] is not None and len(start) > 1:
@@ -206,9 +210,26 @@ def index_supports(mgr):
             for n in ("rdeps", "rtasks", "deptasks", "tartasks")}
 
 
+def declared_vs_expression(mgr):
+    """An expression task must declare exactly what its current expression reads / its target writes."""
+    out = []
+    for tid, t in mgr.tasks.items():
+        expr = getattr(t, "expr", None)
+        if expr is None or not hasattr(expr, "_get_dependencies"):
+            continue
+        real = expr._get_dependencies()
+        if set(t.dependencies) != set(real):
+            out.append("task %s declares dependencies %s but its expression %s reads %s" % (
+                tid, sorted(map(str, t.dependencies)), expr, sorted(map(str, real))))
+        if set(t.targets) != set(tid._get_dependencies()):
+            out.append("task %s declares targets %s, its target reference implies %s" % (
+                tid, sorted(map(str, t.targets)), sorted(map(str, tid._get_dependencies()))))
+    return out
+
+
 def index_violations(mgr):
     sup, der = index_supports(mgr), derive_indices(mgr)
-    out = []
+    out = declared_vs_expression(mgr)
     for n in sup:
         if sup[n] != der[n]:
             for k in set(sup[n]) | set(der[n]):
@@ -255,6 +276,19 @@ def ck_to_path(ck):
     return [ck[0]] + [["i", enc(k)] if kind == "i" else ["a", k] for kind, k in ck[1:]]
 
 
+def task_kinds(shadow):
+    kinds = {name: "knob" for name in shadow.knobs}
+    kinds.update({name: "ftask" for name in shadow.ftasks})
+    return kinds
+
+
+def shadow_structural_cycle(shadow, runner):
+    """Does the structural graph of the CURRENT definitions (from the shadow) contain a non-trivial SCC?
+    Configuration independent and blind to stale edges in the manager."""
+    comp = sccs(structural_graph(writers_and_reads(shadow, runner), task_kinds(shadow)))
+    return any(size > 1 for _, size in comp.values())
+
+
 def writers_and_reads(shadow, runner):
     """For the KF1 classifier: per task id, the locations it really writes and really reads."""
     info = {}
@@ -289,18 +323,47 @@ def inversions(run_order, info):
     return inv
 
 
-def classify_kf1(mgr, run_order, info):
-    """KF1 (structural false cycle) iff there is at least one run-order inversion w.r.t. the
-    true data flow and every inversion lies inside one non-trivial SCC of mgr.rtasks."""
+def structural_graph(info, kinds=None):
+    """The ordering graph the library's design produces FROM THE TRUE read/write sets: a task lists its
+    target and the target's owners as targets, and every read location with its owners as dependencies,
+    so a -> b iff a written and a read location share their first-level container (or are the same flat
+    location).  Linear knobs list neither owners of their source nor of their targets.
+    Stale or spurious edges of a broken manager are NOT in this graph."""
+    kinds = kinds or {}
+    g = {}
+    for a, (wa, _) in info.items():
+        for b, (_, rb) in info.items():
+            edge = False
+            for w in wa:
+                for r in rb:
+                    if kinds.get(a) == "knob":
+                        edge = edge or (len(w) <= len(r) and r[:len(w)] == w)      # target is r or an owner of r
+                    elif kinds.get(b) == "knob":
+                        edge = edge or (len(r) <= len(w) and w[:len(r)] == r)      # source is w or an owner of w
+                    else:
+                        edge = edge or w[:2] == r[:2]
+                    if edge:
+                        break
+                if edge:
+                    break
+            if edge:
+                g.setdefault(a, []).append(b)
+    return g
+
+
+def classify_kf1(mgr, run_order, info, kinds=None):
+    """KF1 (structural false cycle) iff there is at least one run-order inversion w.r.t. the true data
+    flow and every inversion lies inside one non-trivial SCC of the STRUCTURAL graph derived from the
+    true read/write sets (not of mgr.rtasks: a cycle made of stale edges is not excused)."""
     inv = inversions(run_order, info)
     if not inv:
         return False, "no run-order inversion", inv
-    comp = sccs(rtasks_graph(mgr))
+    comp = sccs(structural_graph(info, kinds))
     for p, t in inv:
         cp, ct = comp.get(p), comp.get(t)
         if cp is None or ct is None or cp[0] != ct[0] or cp[1] < 2:
-            return False, "inversion %s before %s outside any rtasks cycle" % (t, p), inv
-    return True, "all %d inversions inside rtasks cycles" % len(inv), inv
+            return False, "inversion %s before %s outside any structural cycle" % (t, p), inv
+    return True, "all %d inversions inside structural cycles" % len(inv), inv
 
 
 # -- M5: reach counters (informational evidence, never part of a verdict) ---------------------------
